@@ -81,12 +81,13 @@ package zlib
 //@ func (*reader).Read
 //@   params z, p -> n, err
 //@   requires zrBase(z)
-//@   modifies **z.digest, z.err, z.scratch, **z.decompressor, **z.r, p[*], extReads, peekErr, lastReadN, lastReadErr, rfErr, rfN, lastSum32, asmErrno, asmCalls
+//@   modifies **z.digest, z.err, z.scratch, **z.decompressor, **z.r, p[*], extReads, srcConsumed, peekErr, lastReadN, lastReadErr, rfErr, rfN, srcMark, lastSum32, asmErrno, asmCalls
 //@   ensures[C07 inv] zrBase(z)
 //@   ensures[C07 C15 sticky] old(z.err) != nil ==> n == 0 && err == old(z.err) && extReads == old(extReads)
 //@   ensures[C07 C15 err-recorded] err != nil && err != io.EOF ==> z.err == err
 //@   ensures[C07 n-in-range] 0 <= n && n <= len(p)
 //@   ensures@5[C07 eof-checked] checksum == lastSum32 && uint32(z.scratch[0])<<24|uint32(z.scratch[1])<<16|uint32(z.scratch[2])<<8|uint32(z.scratch[3]) == checksum
+//@   ensures@5[C05 stops-after-trailer] srcConsumed == srcMark
 //@   ensures@4[C07 mismatch-is-error] err == ErrChecksum
 //@   ensures@3[C07 C15 trailer-cut] err != io.EOF && (rfErr == io.EOF ==> err == io.ErrUnexpectedEOF) && (rfErr != io.EOF ==> err == rfErr)
 //@   ensures@2[C15 src-err] err != io.EOF
@@ -103,7 +104,7 @@ package zlib
 //@ func (*reader).Reset
 //@   params z, r, dict -> err
 //@   requires (typeis(z.decompressor, *github.com/intel/fastgo/compress/flate.decompressor) ==> (z.decompressor.(*github.com/intel/fastgo/compress/flate.decompressor).rBuf != nil ==> brOK(z.decompressor.(*github.com/intel/fastgo/compress/flate.decompressor).rBuf)) && tabsOK(&z.decompressor.(*github.com/intel/fastgo/compress/flate.decompressor).state)) && (typeis(r, *bufio.Reader) ==> brOK(r.(*bufio.Reader)))
-//@   modifies *z, **z.decompressor, **r, extReads, peekErr, lastReadN, lastReadErr, rfErr, rfN, lastStdResetDictNil
+//@   modifies *z, **z.decompressor, **r, extReads, srcConsumed, peekErr, lastReadN, lastReadErr, rfErr, rfN, srcMark, lastStdResetDictNil
 //@   ensures[C13 fresh] err == nil ==> zrBase(z) && z.err == nil
 //@   ensures@5[C13 dict-honoured] haveDict ==> typeis(z.decompressor, other)
 //@   ensures@5[C03 C13 no-dict-without-fdict] !haveDict && old(z.decompressor) != nil && typeis(old(z.decompressor), other) ==> lastStdResetDictNil
